@@ -56,6 +56,7 @@ def evaluate(case, out):
     for cid, con in contests.items():
         con.cards = sum(1 for c in cvrs if c.has_contest(cid))
         con.cvrs = sum(1 for c in cvrs if c.has_contest(cid) and not c.phantom)
+    flags_kept = False
     if case["seed"] % 4 == 1:
         # the very same list was drawn from before under trial numbers (e.g. a rehearsal seed)
         try:
@@ -64,8 +65,14 @@ def evaluate(case, out):
             for cid, con in contests.items():
                 con.sample_size = min(2, sum(1 for c in cvrs if c.has_contest(cid)))
             CVR.consistent_sampling(cvrs, contests)
-            for c in cvrs:
-                c.sampled = False
+            if case["seed"] % 8 == 1:
+                for c in cvrs:
+                    c.sampled = False
+            else:
+                # the cards keep the marks of the trial draw: what was drawn before is what the caller hands over
+                # (nothing here), not what the cards happen to be marked with
+                flags_kept = True
+                out.cls("trial-draw-marks-left-on-the-cards")
             out.cls("same-list-drawn-before-under-other-numbers")
         except Exception as e:  # noqa
             out.lib_exception("consistent_sampling(trial)", e)
@@ -127,7 +134,10 @@ def evaluate(case, out):
             thr = nums[per[c][-1]]
             out.expect(contests[c].sample_threshold == thr, "threshold!=number-of-n_c-th-card",
                        lambda: (c, contests[c].sample_threshold, thr, sizes[c]))
-    out.expect([bool(c.sampled) for c in cvrs] == [i in union for i in range(len(cvrs))], "sampled-flags", lambda: [c.sampled for c in cvrs])
+    if flags_kept:
+        out.expect(all(bool(cvrs[i].sampled) for i in union), "sampled-flags", lambda: [c.sampled for c in cvrs])
+    else:
+        out.expect([bool(c.sampled) for c in cvrs] == [i in union for i in range(len(cvrs))], "sampled-flags", lambda: [c.sampled for c in cvrs])
     # data later used for each contest's assertions: exactly its n_c cards in order
     if got == want:
         cs = [cvrs[i] for i in got]
